@@ -255,6 +255,11 @@ func SSAName(fn *ssa.Function) string {
 		return "?"
 	}
 	s := fn.String()
+	if o := fn.Object(); o != nil {
+		if cn := CanonName(o); cn != o.Name() && strings.HasSuffix(s, "."+o.Name()) {
+			s = strings.TrimSuffix(s, o.Name()) + cn // a baseline function under a new name (rename.go)
+		}
+	}
 	s = strings.ReplaceAll(s, ModPath+"/pkg/", "")
 	s = strings.ReplaceAll(s, ModPath+"/internal/", "")
 	s = strings.ReplaceAll(s, ModPath, "gnet")
